@@ -45,6 +45,7 @@ def _generate_model_code(
     imports: list[str] | None = None,
     end: str | None = None,
     free_parameters: list[str] | None = None,
+    empty_return: str = "()",
 ) -> str:
     source: list[str] = []
     # Model components
@@ -141,7 +142,9 @@ def _generate_model_code(
         _LOGGER.warning(msg)
 
     # Return
-    ret = ", ".join(f"d{i}dt" for i in variables) if len(diff_eqs) > 0 else "()"
+    ret = (
+        ", ".join(f"d{i}dt" for i in variables) if len(diff_eqs) > 0 else empty_return
+    )
     source.append(return_template.format(ret))
 
     if end is not None:
@@ -176,7 +179,8 @@ def generate_model_code_py(
         variables_template="    {}, = variables",
         assignment_template="    {k}: float = {v}",
         sympy_inline_fn=sympy_to_inline_py,
-        return_template="    return {}",
+        return_template="    return [{}]",
+        empty_return="",
         end=None,
         free_parameters=free_parameters,
         custom_fns={} if custom_fns is None else custom_fns,
